@@ -1,7 +1,7 @@
 """Which jobs and extra checks decide which property (the sidecar's table of contents)."""
 import importlib
 
-JOB_MODULES = ["contracts.jobs_basic", "contracts.jobs_multi"]
+JOB_MODULES = ["contracts.jobs_basic", "contracts.jobs_multi", "contracts.jobs_classes"]
 CANARY = "contracts.jobs_canary"
 
 _cache = {}
@@ -38,16 +38,18 @@ TB_COMMON = [
 ]
 
 PROPS = {
-    "C01": dict(level="proof", canaries=[(CANARY, "canary:filter-vs-yield-before-test")], trusted_base=TB_COMMON,
+    "C01": dict(level="proof", canaries=[(CANARY, "canary:filter-yields-before-test")], trusted_base=TB_COMMON,
                 explanation="relational proof: every yielded item (object identity) and the final outcome of each tool equal those of the reference generator, for all items/lengths (loop cut + inductive coupling invariant)"),
-    "C02": dict(level="proof", canaries=[(CANARY, "canary:max-vs-last-of-ties")], trusted_base=TB_COMMON + ["list.sort = stable sort (uninterpreted sort_by)"],
+    "C02": dict(level="proof", canaries=[(CANARY, "canary:max-last-of-ties")], trusted_base=TB_COMMON + ["list.sort = stable sort (uninterpreted sort_by)"],
                 explanation="relational proof of return value / exception class against the reference aggregation; mutation of arguments shows as an in-place Op event the reference never performs"),
-    "C04": dict(level="proof", canaries=[(CANARY, "canary:enumerate-vs-step2")], trusted_base=TB_COMMON,
+    "C04": dict(level="proof", canaries=[(CANARY, "canary:enumerate-leaks-source")], trusted_base=TB_COMMON,
                 explanation="release postcondition at every exit path (exhaustion, consumer close at every yield, raise/cancel at every pull/call)"),
-    "C05": dict(level="proof", canaries=[(CANARY, "canary:filter-vs-yield-before-test")], trusted_base=TB_COMMON,
+    "C05": dict(level="proof", canaries=[(CANARY, "canary:filter-yields-before-test")], trusted_base=TB_COMMON,
                 explanation="event-match on requests: pulls, end detections and callable invocations occur in the reference's order between any two yields"),
-    "C06": dict(level="proof", canaries=[(CANARY, "canary:filter-vs-yield-before-test")], trusted_base=TB_COMMON,
+    "C06": dict(level="proof", canaries=[(CANARY, "canary:filter-yields-before-test")], trusted_base=TB_COMMON,
                 explanation="a fault answered at every pull/call/op: same events up to the fault, the very same exception object propagates"),
-    "C18": dict(level="proof", canaries=[(CANARY, "canary:enumerate-vs-step2")], trusted_base=TB_COMMON,
+    "C16": dict(level="proof", canaries=[(CANARY, "canary:filter-yields-before-test")], trusted_base=TB_COMMON + ["reference class groupby/_grouper = transcription of CPython's groupbyobject/_grouperobject (validated differentially)", "one stale group handle represents all stale handles (their behaviour depends only on not being the current group)"],
+                explanation="data structure against abstract view: GroupBy/_Grouper operations vs the transcribed itertools.groupby under an arbitrary history of {advance groupby, advance current group, advance stale group}; the consumer loop is a cut point, so histories and inputs are unbounded"),
+    "C18": dict(level="proof", canaries=[(CANARY, "canary:enumerate-leaks-source")], trusted_base=TB_COMMON,
                 explanation="cancellation (BaseException thrown in at every suspension point): same exception propagates, sources released"),
 }
